@@ -78,6 +78,13 @@ func (ex *Exec) instr(b *ssa.BasicBlock, in ssa.Instruction) {
 	case *ssa.FieldAddr:
 		base := ex.val(in.X)
 		pt := in.X.Type().Underlying().(*types.Pointer)
+		if base.EP != nil && base.EP.Slice != nil {
+			// address of a field of a slice element
+			ep := *base.EP
+			ep.FieldPath = append(append([]int{}, base.EP.FieldPath...), in.Field)
+			ex.vals[in] = Val{K: KRef, Typ: in.Type(), EP: &ep}
+			return
+		}
 		if ex.top.nilcheck {
 			ex.addObl("nil", "", r, not(eq(base.T, "0")), in.Pos(), "nil dereference", true)
 		}
@@ -169,6 +176,12 @@ func (ex *Exec) instr(b *ssa.BasicBlock, in ssa.Instruction) {
 			if k, ok := mi.X.(*ssa.Const); ok {
 				txt = "panic(" + k.Value.ExactString() + ")"
 			}
+		}
+		if tag := ex.top.fc; tag != nil && ex == ex.top && tag.Options["assume-nopanic"] != "" {
+			// an explicit panic that guards an assumption about the environment
+			c.assume(imp(r, "false"))
+			c.trusted[tag.Options["assume-nopanic"]+": "+txt+" is assumed unreachable in "+ex.fname] = true
+			return
 		}
 		ex.addObl("nopanic", "", r, "false", in.Pos(), txt, true)
 	case *ssa.Jump:
@@ -537,7 +550,7 @@ func (ex *Exec) indexAddr(in *ssa.IndexAddr, r Term) {
 		ex.addObl("bounds", "", r, and(app("bvsle", bvLit(64, 0), i), app("bvslt", i, x.Len)), in.Pos(),
 			"index out of range: "+ex.v.srcLine(in.Pos()), true)
 		base := x
-		ex.vals[in] = Val{K: KRef, Typ: in.Type(), T: "", EP: &elemPtr{Slice: &base, Idx: i}}
+		ex.vals[in] = Val{K: KRef, Typ: in.Type(), T: "", EP: &elemPtr{Slice: &base, Idx: i, SliceSSA: in.X}}
 	case *types.Pointer:
 		at := xt.Elem().Underlying().(*types.Array)
 		ex.addObl("bounds", "", r, and(app("bvsle", bvLit(64, 0), i), app("bvslt", i, bvLit(64, uint64(at.Len())))), in.Pos(),
@@ -558,8 +571,10 @@ func (ex *Exec) indexAddr(in *ssa.IndexAddr, r Term) {
 }
 
 type elemPtr struct {
-	Slice    *Val
-	Idx      Term
+	Slice     *Val
+	SliceSSA  ssa.Value
+	FieldPath []int
+	Idx       Term
 	ArrAddr  Term
 	ArrType  types.Type
 	ConstIdx int
@@ -567,7 +582,16 @@ type elemPtr struct {
 
 func (ex *Exec) loadElem(p Val, et types.Type) Val {
 	if p.EP.Slice != nil {
-		v := ex.c.sliceElem(*p.EP.Slice, p.EP.Idx)
+		cur := *p.EP.Slice
+		if p.EP.SliceSSA != nil {
+			if nv, ok := ex.vals[p.EP.SliceSSA]; ok && nv.K == KSlice {
+				cur = nv // element stores update the slice value in place
+			}
+		}
+		v := ex.c.sliceElem(cur, p.EP.Idx)
+		for _, f := range p.EP.FieldPath {
+			v = v.Fields[f]
+		}
 		v.Typ = et
 		return v
 	}
@@ -583,19 +607,47 @@ func (ex *Exec) storeInstr(in *ssa.Store, r Term) {
 	et := in.Addr.Type().Underlying().(*types.Pointer).Elem()
 	if a.EP != nil {
 		if a.EP.Slice != nil {
-			// element store into a slice: only sound under value semantics
-			// when the slice was created locally (make) — tracked by SSA def.
-			ia := in.Addr.(*ssa.IndexAddr)
-			if ms, ok := ia.X.(*ssa.MakeSlice); ok {
-				cur := ex.vals[ms]
-				ls := leaves(v)
-				for k := range cur.Arr {
-					cur.Arr[k] = app("store", cur.Arr[k], app("bvadd", cur.Off, a.EP.Idx), ls[k])
-				}
-				ex.vals[ms] = cur
-				return
+			// Element store into a slice. Slices are values in this model, so
+			// the store produces an updated slice value; it replaces the SSA
+			// value it was taken from and, when that value was loaded from a
+			// variable's memory cell, it is written back to that cell (the
+			// cell still holds the same backing array). Other aliases of the
+			// backing array are not updated (A-SLICE-VALUE).
+			sv := a.EP.SliceSSA
+			if sv == nil {
+				unsup("store through slice element pointer without origin")
 			}
-			unsup("store through slice element pointer (slices have value semantics)")
+			cur, ok := ex.vals[sv]
+			if !ok || cur.K != KSlice {
+				unsup("store through slice element pointer: unknown slice")
+			}
+			elem := c.sliceElem(cur, a.EP.Idx)
+			var setPath func(e Val, path []int, nv Val) Val
+			setPath = func(e Val, path []int, nv Val) Val {
+				if len(path) == 0 {
+					return nv
+				}
+				ne := e
+				ne.Fields = append([]Val{}, e.Fields...)
+				ne.Fields[path[0]] = setPath(e.Fields[path[0]], path[1:], nv)
+				return ne
+			}
+			ne := setPath(elem, a.EP.FieldPath, v)
+			ls := leaves(ne)
+			upd := cur
+			upd.Arr = append([]Term{}, cur.Arr...)
+			idx := app("bvadd", cur.Off, a.EP.Idx)
+			for k := range upd.Arr {
+				upd.Arr[k] = c.define("elemst", arrSort(bvSort(64), c.leafSorts(cur.Elem)[k]), app("store", upd.Arr[k], idx, ls[k]))
+			}
+			upd.Typ = sv.Type()
+			ex.vals[sv] = upd
+			if ld, ok := sv.(*ssa.UnOp); ok && ld.Op == token.MUL {
+				if av, ok := ex.vals[ld.X]; ok && av.K == KRef && av.EP == nil && av.T != "" {
+					c.store(ex.cur, av.T, sv.Type(), upd)
+				}
+			}
+			return
 		}
 		arr := c.load(ex.cur, a.EP.ArrAddr, a.EP.ArrType)
 		n := int(a.EP.ArrType.Underlying().(*types.Array).Len())
